@@ -86,6 +86,17 @@ pub fn gen(stream: &str, tier: &str, seed: u64, out: &mut dyn Write) -> bool {
                 }
             }
         }
+        "C19e" => {
+            // valid emitted encodings of every corpus type; the verb tries every truncation and a set of corruptions of each
+            let mut r = Rng(seed ^ 0xe19e);
+            for e in &tb.entries {
+                let s = tb.schema_of(e);
+                for _ in 0..n(3, 20) {
+                    let (_, b) = small_value(&mut r, s, e, n(160, 400));
+                    if !b.is_empty() { let _ = writeln!(cx.out, "pbeleak {} {} oracle-only", e.name, hex(&b)); }
+                }
+            }
+        }
         "C18e" => {
             let mut r = Rng(seed ^ 0xe18e);
             let reps = n(24, 480);
